@@ -51,7 +51,7 @@ fn main() {
         "C16" => drive(props::c16::C16::new(), rest),
         "C17" => drive(props::c17::C17, rest),
         "C18" => drive(props::c18::C18, rest),
-        "C20" => drive(props::c20::C20, rest),
+        "C20" => drive(props::c20::C20::new(), rest),
         "c20-digest" => props::c20::digest_main(),
         "C19" => drive(props::c19::C19::new(), rest),
         "emit-corpus" => {
